@@ -7,6 +7,7 @@ import (
 	"os"
 	"runtime/debug"
 	"sort"
+	"strings"
 
 	"golang.org/x/tools/go/ssa"
 
@@ -78,6 +79,49 @@ func main() {
 			return
 		}
 		rules.DumpNasModel(core.NewCtx("C08", "quick", prog))
+		return
+	}
+	if prop == "absexec" {
+		// developer entry: stgverif absexec <pkgpath> <func> [keep,keep,...]: print the abstract outcomes of a function
+		prog, err := core.Load(core.RepoDir(), "")
+		if err != nil {
+			fmt.Println(err)
+			os.Exit(2)
+		}
+		fn := prog.Func(os.Args[2], os.Args[3])
+		if fn == nil {
+			fmt.Println("no such function")
+			os.Exit(2)
+		}
+		ex := core.NewExec()
+		if os.Getenv("VERIF_MERGE") != "" {
+			ex.Merge = true
+			core.MaxXorTerms = 200
+		}
+		keep := map[string]bool{}
+		if len(os.Args) > 4 {
+			for _, k := range strings.Split(os.Args[4], ",") {
+				keep[k] = true
+			}
+			ex.Enter = func(f *ssa.Function) bool { return !keep[f.Name()] && core.RepoFunc(f) }
+		}
+		outs, err := ex.Run(fn, core.DefaultArgs(fn), nil)
+		if err != nil {
+			fmt.Println("error:", err)
+		}
+		for i, o := range outs {
+			fmt.Printf("--- outcome %d panicked=%v conds=%v\n", i, o.Panicked, o.Conds)
+			for j, r := range o.Ret {
+				fmt.Printf("  ret%d = %s\n", j, r)
+			}
+			for _, k := range o.Mem.Cells("") {
+				fmt.Printf("  %s = %s\n", k, o.Mem.Load(k, nil))
+			}
+			for _, ev := range o.Trace {
+				fmt.Printf("  event %s\n", ev.Callee)
+			}
+		}
+		fmt.Println("unsound:", ex.Unsound)
 		return
 	}
 	if prop == "mutants" {
